@@ -114,7 +114,7 @@ impl RequestHandler<Rename> for RenameHandler {
             Some(cg) => cg,
             None => return Ok(None),
         };
-        let mut codegen = codegen.lock().unwrap();
+        let codegen = codegen.lock().unwrap();
         let mut defs = ctx.find_definitions(codegen.analysis(), &params.text_document_position);
         if defs.is_empty() {
             return Ok(None);
@@ -125,6 +125,10 @@ impl RequestHandler<Rename> for RenameHandler {
             DefinitionType::Filename(_) => Ok(None),
             DefinitionType::Symbol(def_symbol_nx) => {
                 if let Some(location) = &def.location {
+                    // The new paths are computed on a copy of the symbol table: the buffers are unchanged until the
+                    // client applies the edit (and sends them again), so the analysis must stay as it is
+                    let mut symbols = codegen.symbols().clone();
+
                     // First, determine all the query steps for every usage
                     let steps = def
                         .usages()
@@ -135,9 +139,7 @@ impl RequestHandler<Rename> for RenameHandler {
                             (
                                 dl,
                                 (
-                                    codegen
-                                        .symbols()
-                                        .query_traversal_steps(dl.parent_scope, &path),
+                                    symbols.query_traversal_steps(dl.parent_scope, &path),
                                     path,
                                 ),
                             )
@@ -145,7 +147,7 @@ impl RequestHandler<Rename> for RenameHandler {
                         .collect::<HashMap<_, _>>();
 
                     // Now, rename the actual symbol
-                    codegen.symbols_mut().rename(
+                    symbols.rename(
                         location.parent_scope,
                         def_symbol_nx,
                         Identifier::from(params.new_name.as_str()),
@@ -155,7 +157,7 @@ impl RequestHandler<Rename> for RenameHandler {
                     // (other paths may exist due to imports)
                     for (dl, (steps, _)) in steps.iter() {
                         if let Some(QueryTraversalStep::Symbol(nx)) = steps.last() {
-                            codegen.symbols_mut().rename(
+                            symbols.rename(
                                 dl.parent_scope,
                                 *nx,
                                 Identifier::from(params.new_name.as_str()),
@@ -168,8 +170,7 @@ impl RequestHandler<Rename> for RenameHandler {
                         .into_iter()
                         .filter_map(|(dl, (query_traversal_steps, old_path))| {
                             let include_super = old_path.contains_super();
-                            codegen
-                                .symbols()
+                            symbols
                                 .query_steps_to_path(
                                     dl.parent_scope,
                                     &query_traversal_steps,
